@@ -46,10 +46,17 @@ const (
 	FaultTransient                // exactly one Read positioned at At fails with (0, err)
 	FaultTruncate                 // clean EOF at At
 	FaultSeek                     // Seek call number At fails
+	// FaultTransientData: exactly one Read delivers the bytes up to offset At
+	// together with the injected error; later reads continue normally.
+	FaultTransientData
+	// FaultProbeData is the fault-free twin of FaultTransientData: the same
+	// Read is capped at offset At but returns a nil error.  ReadsAfterCap then
+	// tells whether the consumer came back for more.
+	FaultProbeData
 )
 
 func (k FaultKind) String() string {
-	return [...]string{"none", "persistent", "persistent+data", "transient", "truncate", "seek"}[k]
+	return [...]string{"none", "persistent", "persistent+data", "transient", "truncate", "seek", "transient+data", "probe+data"}[k]
 }
 
 // Fault describes one injected reader fault.
@@ -80,6 +87,8 @@ type SimReader struct {
 	AfterEnd      int  // consecutive calls after EOF / persistent error was returned
 	NoProgress    bool // liveness bound exceeded
 	MultiChunk    bool // more than one non-empty Read happened
+	Capped        bool // the Read ending at the fault offset happened (FaultTransientData / FaultProbeData)
+	ReadsAfterCap int  // Read calls issued after that one
 	fp            uint64
 	nonEmpty      int
 	limit         int
@@ -104,6 +113,10 @@ func (r *SimReader) note(kind byte, a, b int) {
 	}
 	r.fp = h
 }
+
+// SetPos positions the reader at offset k before the code under test sees it
+// (a caller handing over a stream positioned mid-file).
+func (r *SimReader) SetPos(k int) { r.pos = k }
 
 // Fingerprint identifies the sequence of (call, requested, delivered, outcome)
 // events seen so far.
@@ -167,6 +180,9 @@ func (r *SimReader) Read(p []byte) (int, error) {
 	}
 	n := r.chunk(len(p))
 	withErr := false
+	if r.Capped {
+		r.ReadsAfterCap++
+	}
 
 	switch r.fault.Kind {
 	case FaultPersistent, FaultPersistentData:
@@ -180,6 +196,29 @@ func (r *SimReader) Read(p []byte) (int, error) {
 		if r.pos+n >= at {
 			n = at - r.pos
 			withErr = r.fault.Kind == FaultPersistentData
+		}
+	case FaultTransientData, FaultProbeData:
+		if !r.tfired {
+			at := r.fault.At
+			if r.pos < at && r.pos+n >= at {
+				n = at - r.pos
+				r.tfired = true
+				r.Capped = true
+				if r.fault.Kind == FaultTransientData {
+					copy(p, r.data[r.pos:r.pos+n])
+					r.pos += n
+					r.count(n)
+					r.DeliveredData = true
+					r.note('d', len(p), n)
+					return n, ErrInjected
+				}
+				// probe: deliver the capped chunk without EOF attached
+				copy(p, r.data[r.pos:r.pos+n])
+				r.pos += n
+				r.count(n)
+				r.note('r', len(p), n)
+				return n, nil
+			}
 		}
 	case FaultTransient:
 		if !r.tfired {
